@@ -691,8 +691,8 @@ def prove(tier, seed):  # noqa: F811
         return b
     return merge(_prove_before_frames(tier, seed), b)
 
-LEVEL_TEXT = LEVEL_TEXT + (" Also proved for ALL local dimensions d (E1-array/bilinear; p = 2, 3, and 4 in the thorough tier): the full symmetric / antisymmetric projectors equal "
-                           "(1/p!) sum_sigma [sgn(sigma)] W_sigma entrywise (permutation_operator and perm_sign by their proved contracts), and as lemmas over that postcondition (p = 2, 3): "
+LEVEL_TEXT = LEVEL_TEXT + (" Also proved for ALL local dimensions d (E1-array/bilinear; p = 2..4, and 5 in the thorough tier): the full symmetric / antisymmetric projectors equal "
+                           "(1/p!) sum_sigma [sgn(sigma)] W_sigma entrywise (permutation_operator and perm_sign by their proved contracts), and as lemmas over that postcondition (p = 2, 3; 4 in the thorough tier): "
                            "Hermitian, idempotent, W_tau P = P resp. sgn(tau) P for generators tau of S_p, P_sym P_anti = 0, P_sym + P_anti = I for p = 2, trace = binom(d+p-1, p) resp. binom(d, p).")
 from props.C18_bilinear import ASSUMED as _BIL_ASSUMED  # noqa: E402
 
